@@ -14,6 +14,11 @@ use serde_json::{json, Value};
 
 pub const VERIF_ROOT: &str = "/verif";
 
+/// Where evidence/ and replays/ are written (VERIF_OUT overrides; used for mutant runs so they never touch real evidence).
+pub fn out_root() -> PathBuf {
+    PathBuf::from(std::env::var("VERIF_OUT").unwrap_or_else(|_| VERIF_ROOT.to_string()))
+}
+
 #[derive(Clone, Copy, PartialEq, Eq, Debug)]
 pub enum Tier {
     Quick,
@@ -234,7 +239,7 @@ impl Run {
         }
 
         // replays
-        let rdir = PathBuf::from(VERIF_ROOT).join("replays").join(&self.prop);
+        let rdir = out_root().join("replays").join(&self.prop);
         let mut first_replay: Option<PathBuf> = None;
         if !new_viol.is_empty() {
             let _ = std::fs::create_dir_all(&rdir);
@@ -303,7 +308,7 @@ impl Run {
             "violations": new_viol.len(),
             "known_finding_cases": g.violations.len() - new_viol.len(),
         });
-        let edir = PathBuf::from(VERIF_ROOT).join("evidence");
+        let edir = out_root().join("evidence");
         let _ = std::fs::create_dir_all(&edir);
         let ep = edir.join(format!("{}.json", self.prop));
         if let Err(e) = std::fs::write(&ep, serde_json::to_vec_pretty(&ev).unwrap()) {
